@@ -15,7 +15,7 @@ func init() {
 			"(3) the login handler is entered only for router-declared login paths, uses CheckToken(…, unauth=true) (which refuses root-protected paths), audits before dispatch and never serves auth/token/; " +
 			"(4) who-may-call tables: every call of Router.Route and every direct logical.Backend.HandleRequest invoke in the server is in a reviewed table, internal callers pass requests built by the internal-request constructors or constant cubbyhole paths; " +
 			"(6) relative paths, sealed core/namespace, trailing-slash writes and internal-only operations are refused before dispatch; " +
-			"(7) policy writes/deletes invalidate the policy cache entry before reporting success; (8) building a request's ACL never mutates or aliases the cached policy objects shared by all tokens (shared rule with C03.6).",
+			"(7) policy writes/deletes invalidate the policy cache entry before reporting success, and every keyed operation on the policy cache (add, remove, get) uses the result of Store.cacheKey — the key readers use — or a key enumerated from the cache itself; (8) building a request's ACL never mutates or aliases the cached policy objects shared by all tokens (shared rule with C03.6).",
 		NotDecided: "that the ACL's decision is the right one (C03's clauses); absence of storage effects of a refused request as an observed effect; interleavings of policy/token mutation with requests; what each HTTP route outside Core.HandleRequest does.",
 		Run:        runC02,
 	})
@@ -401,6 +401,7 @@ func runC02(c *eng.Ctx, thorough bool) {
 
 	// ---------------- C02.7 policy cache invalidation
 	c02PolicyCache(c)
+	c02PolicyCacheKeys(c)
 
 	// ---------------- C02.8 a token is judged by its own policies: the per-request ACL must not write into the cached policy objects
 	aclOwnership(c, "C02.8")
